@@ -121,12 +121,14 @@ prop("C04", "exploration", HIST_RULE + "; C04 monitor M-books at every validated
      "(plus: no UTXO commitment ever held by the account is forgotten), reported spendable/immature/awaiting/locked/total for minimum_confirmations "
      "{0,1,3,10} equal the partition recomputed from chain heights and coinbase flags, unspent+locked = confirmed credits - debits, and no operation "
      "of one account locks or spends another account's outputs",
-     [{"name": "c04", "cmd": "c04", "shards": {"quick": 14, "thorough": 16}, "args": {"thorough": {"histories": 10}}, "crash_is_violation": True}],
+     [{"name": "c04", "cmd": "c04", "shards": {"quick": 14, "thorough": 16}, "args": {"thorough": {"histories": 10}}, "crash_is_violation": True},
+      {"name": "c04m", "cmd": "c04m", "shards": {"quick": 2, "thorough": 4}, "crash_is_violation": True}],
      {"quick": 3000, "thorough": 40000},
      ["histories never cancel after broadcast and never reorganise (the statement excludes those)",
       "once per history, while transactions are pending, the chain grows by 51-56 blocks at once (a transaction finalized long before it is broadcast)",
+      "job c04m: a brand-new wallet (own seed, init status 'no scanning') builds coinbases into a non-active account, more than 100 blocks pass, then 'default' and then that account are refreshed: its records must be its outputs in the UTXO set",
       "refreshes that report validated=false or an error are not judged"],
-     required_hist=["books:judged", "transition:Unconfirmed->Unspent", "transition:Locked->Spent", "transition:Unspent->Locked", "op:refresh-not-validated", "op:restart", "op:burst-of-more-than-50-blocks"])
+     required_hist=["books:judged", "transition:Unconfirmed->Unspent", "transition:Locked->Spent", "transition:Unspent->Locked", "op:refresh-not-validated", "op:restart", "op:burst-of-more-than-50-blocks", "books:judged-for-an-account-refreshed-after-another"])
 
 prop("C15", "exploration", HIST_RULE + "; C15 monitor M-keypath: per wallet a map derivation path -> first (commitment, value) over every output record ever "
      "seen (including later deleted ones); a path re-appearing with another commitment or value is a violation unless both are coinbase and the earlier "
@@ -284,11 +286,13 @@ prop("C16", "exploration",
      "(c) a transaction broadcast, then cancelled by the sender, then mined: scan of both wallets, same comparison; (d) last, the top 2-5 blocks replaced "
      "by a longer fork of neutral blocks: scan of both wallets, same comparison over every account. "
      "distinct = (kind, wallet, outputs in UTXO, page size, start / injected set); non-trivial = all",
-     [{"name": "c16", "cmd": "c16", "shards": {"quick": 14, "thorough": 16}, "crash_is_violation": True}],
+     [{"name": "c16", "cmd": "c16", "shards": {"quick": 14, "thorough": 16}, "crash_is_violation": True},
+      {"name": "c16m", "cmd": "c16m", "shards": {"quick": 2, "thorough": 4}, "crash_is_violation": True}],
      {"quick": 90, "thorough": 600},
      ["balances are read after a refresh of the account (the figures are relative to the account's confirmed height)",
+      "job c16m: same new-wallet/non-active-account situation, then a scan with a start height near the tip: nothing recorded that is in the UTXO set may be lost",
       "mid-chain start heights are not judged for completeness"],
-     required_hist=["restore:matches-chain-truth", "restore:second-scan-no-change", "repair:matches-chain-truth", "repair:second-scan-no-change", "restore:spendable-equals-original", "repair-after-cancel-of-broadcast:matches-chain-truth", "repair-after-reorg:matches-chain-truth"])
+     required_hist=["restore:matches-chain-truth", "restore:second-scan-no-change", "repair:matches-chain-truth", "repair:second-scan-no-change", "restore:spendable-equals-original", "repair-after-cancel-of-broadcast:matches-chain-truth", "repair-after-reorg:matches-chain-truth", "partial-scan:keeps-records-below-its-range"])
 
 prop("C18", "exploration",
      "a payment from wallet 0 to wallet 1 is mined (0-2 earlier and later blocks mined by the recipient, so that its coinbases can be orphaned) and confirmed; then "
